@@ -68,12 +68,31 @@ func runC14(t *testing.T, seed uint64, m *Mask) *Report {
 			}
 		}
 		pf := world.ProtoFunc(proto)
-		A := e.NewPeer("A", erpc.PeerConfig{CountTime: countTime})
+		// the first session may be a dialled one with a redial budget: a cut then makes the session reconnect
+		// (socket reset, re-indexing) while the other tasks keep using it
+		redial := e.Gen.Chance(0.35) && proto != "http"
+		acfg := erpc.PeerConfig{CountTime: countTime}
+		if redial {
+			acfg.RedialTimes, acfg.RedialInterval = 2, 2*time.Millisecond
+		}
+		A := e.NewPeer("A", acfg)
 		B := e.NewPeer("B", erpc.PeerConfig{CountTime: countTime})
 		rtA, rtB := e.RegisterStd(A), e.RegisterStd(B)
 		type sp struct{ a, b erpc.Session }
 		var ss []sp
 		for i := 0; i < nSess; i++ {
+			if i == 0 && redial {
+				e.Serve(B, "10.9.0.1:9000", pf)
+				sa, st := A.Dial("10.9.0.1:9000", pf)
+				if !st.OK() {
+					e.Fail("infra-dial-failed", "dial: %v", st)
+					return
+				}
+				want := sa.LocalAddr().String()
+				e.Until(func() bool { s := e.FindSession(B, want); return s != nil && s.Health() })
+				ss = append(ss, sp{sa, e.FindSession(B, want)})
+				continue
+			}
 			sa, sb, _, _ := e.ServePair(A, B, pf, pf)
 			ss = append(ss, sp{sa, sb})
 		}
@@ -178,6 +197,7 @@ func runC14(t *testing.T, seed uint64, m *Mask) *Report {
 		simrt.WaitCond(func() bool { return running.Get() == 0 })
 		simrt.WaitQuiescent()
 		e.CloseAll()
+
 	})
 	rep.Sample = rep.Cell + " " + sampleOps(ops, 2)
 	fin := finish(rep, out)
